@@ -1,2 +1,105 @@
-(* C37 (placeholder while the proofs are being written) *)
-From VGI Require Import M_Url.
+(* C37: OAuth browser flow redirects only to safe origins.  Statements only; proofs are in proof/L_Url*.v.
+   Strings are lists of code points.  [whatwg_origin base u] is the origin a WHATWG-conformant browser gives to the
+   Location value u received on a page whose URL has scheme [base] (model/M_Url.v, Part C, validated against Node 20);
+   OFail = the parser rejects the value (no navigation), OBase = the origin of the page itself. *)
+From Coq Require Import List NArith Bool.
+From VGI Require Import Bytes Layout Utf8 M_Url L_Url L_UrlSafe L_UrlOrig L_UrlCookie L_UrlFlow.
+Import ListNotations.
+Open Scope N_scope.
+
+(* Full statement aimed at:  forall allowed u,  _validate_return_to(u, allowed) = u  ->  every Location the flow builds
+   from u (u + '#'/'&' + fragment parameters, whatever the token bytes are) resolves to an allowlisted or loopback origin.
+   Proved here (_partial) for
+     - allowlists whose entries are scheme://plain-host[:digits]  (entry_wf: http/https; host of [a-z0-9.-], no xn--
+       label, not ending in a number), "allowlisted" read as the code documents it: an entry without a port admits its
+       host on every port, an entry with a port admits that port;
+     - URLs without '[' (bracketed IPv6 / IPvFuture hosts; urllib never yields the hostname "[::1]" the code tests for).
+   Everything else is quantified: userinfo, '@', backslashes, controls, whitespace, percent-encoding, ports, U+212A ...
+   A host that would need IDNA gives OUnmodelled, which origin_ok counts as unsafe -- so the theorem also says that
+   no such host is ever accepted.  brk = urllib's bracketed-host check (any function). *)
+Theorem C37_location_safe_partial : forall brk ts u params base,
+  forallb entry_wf ts = true -> has 91 u = false ->
+  validate_return_to brk (map render ts) u = Accept ->
+  origin_ok ts (whatwg_origin base (location_of u params)).
+Proof. exact location_safe. Qed.
+Print Assumptions C37_location_safe_partial.
+
+(* the URL the callback redirects to after a same-origin login stays on the service's origin, for every request path /
+   query / cookie content; the fallback is the operator's prefix (assumed to be a path: "" or "/x...") *)
+Theorem C37_original_same_origin : forall brk prefix u v base,
+  (prefix = [] \/ orig_guard prefix = false) ->
+  validate_original_url brk prefix u = POk v -> whatwg_origin base v = OBase.
+Proof. exact original_same_origin. Qed.
+Print Assumptions C37_original_same_origin.
+
+(* ... and is the prefix root or a string that starts with the prefix *)
+Theorem C37_original_under_prefix : forall brk prefix u v,
+  validate_original_url brk prefix u = POk v ->
+  v = fallback_of prefix \/ (orig_guard v = false /\ (prefix = [] \/ is_prefix prefix v = true)).
+Proof. exact original_cases. Qed.
+Print Assumptions C37_original_under_prefix.
+
+(* session cookie: what the server packs is accepted for 600 s and yields the packed fields (mac: any function with
+   32-byte output) *)
+Theorem C37_cookie_roundtrip : forall (mac : bytes -> bytes -> bytes) key,
+  (forall k m, length (mac k m) = 32%nat) ->
+  forall t cv st url rt raw now a b c d,
+  pack_cookie mac key t cv st url rt = Some raw ->
+  utf8_decode cv = Some a -> utf8_decode st = Some b -> utf8_decode url = Some c -> utf8_decode rt = Some d ->
+  t <= now <= t + 600 ->
+  unpack_cookie mac key cookie_version 32 600 now raw = UOk a b c d.
+Proof. exact cookie_roundtrip. Qed.
+Print Assumptions C37_cookie_roundtrip.
+
+(* acceptance requires: last 32 bytes = HMAC of the rest, version byte 4, 0 <= age <= 600 *)
+Theorem C37_cookie_requires_valid_mac : forall (mac : bytes -> bytes -> bytes) key now raw a b c d,
+  unpack_cookie mac key cookie_version 32 600 now raw = UOk a b c d ->
+  exists payload tag, raw = payload ++ tag /\ length tag = 32%nat /\ tag = mac key payload /\
+    exists p1, payload = cookie_version :: p1 /\
+      le_decode (firstn 8 p1) <= now <= le_decode (firstn 8 p1) + 600.
+Proof. exact cookie_requires_valid_mac. Qed.
+Print Assumptions C37_cookie_requires_valid_mac.
+
+(* the callback reaches the token exchange only with a cookie that is present, decodes, unpacks (above) and whose
+   state equals the query's *)
+Theorem C37_callback_requires_cookie : forall (mac : bytes -> bytes -> bytes) key b64d now error code state cookie cv url rt,
+  callback mac key b64d cookie_version 32 600 now error code state cookie = CbProceed cv url rt ->
+  exists c raw st, cookie = Some c /\ c <> [] /\ b64d c = Some raw /\
+    unpack_cookie mac key cookie_version 32 600 now raw = UOk cv st url rt /\ state = Some st /\ st <> [] /\
+    (error = None \/ error = Some []) /\ (exists cd, code = Some cd /\ cd <> []).
+Proof. exact callback_requires_cookie. Qed.
+Print Assumptions C37_callback_requires_cookie.
+
+(* the Location the callback sets.  Premise = ideal MAC: the payload of a cookie that verifies is one that
+   process_response packed (issued_payload: its return_to is "" or a URL the validator accepted). *)
+Theorem C37_callback_redirect_safe_partial : forall (mac : bytes -> bytes -> bytes) key b64d brk
+    ts prefix now error code state cookie cv url rt params base,
+  forallb entry_wf ts = true -> (prefix = [] \/ orig_guard prefix = false) ->
+  callback mac key b64d cookie_version 32 600 now error code state cookie = CbProceed cv url rt ->
+  (forall c raw, cookie = Some c -> b64d c = Some raw -> issued_payload brk ts (firstn (length raw - 32) raw)) ->
+  match rt with
+  | [] => forall v, validate_original_url brk prefix url = POk v -> whatwg_origin base v = OBase
+  | _ :: _ => origin_ok ts (whatwg_origin base (location_of rt params))
+  end.
+Proof. exact callback_redirect_safe. Qed.
+Print Assumptions C37_callback_redirect_safe_partial.
+
+(* ---- non-vacuity ---- *)
+Definition ex_ts : list entry := [(s_https, [99; 117; 112; 111; 108; 97; 46; 113; 117; 101; 114; 121; 45; 102; 97; 114; 109; 46; 115; 101; 114; 118; 105; 99; 101; 115], None)].
+(* "https://user@CUPOLA.query-farm.services:8443/cb" is accepted; its Location resolves to that host *)
+Definition ex_u : str := s_https ++ s_css ++ [117; 115; 101; 114; 64; 67; 85; 80; 79; 76; 65] ++ [46; 113; 117; 101; 114; 121; 45; 102; 97; 114; 109; 46; 115; 101; 114; 118; 105; 99; 101; 115; 58; 56; 52; 52; 51; 47; 99; 98].
+Example C37_location_ex : forallb entry_wf ex_ts = true /\ has 91 ex_u = false /\
+  validate_return_to (fun _ => true) (map render ex_ts) ex_u = Accept /\
+  whatwg_origin s_https (location_of ex_u [116; 61; 120]) = OTuple s_https (HDomain (e_host (s_https, [99; 117; 112; 111; 108; 97; 46; 113; 117; 101; 114; 121; 45; 102; 97; 114; 109; 46; 115; 101; 114; 118; 105; 99; 101; 115], None))) (Some 8443).
+Proof. vm_compute. repeat split; reflexivity. Qed.
+(* the repaired validator refuses the backslash form *)
+Example C37_location_ex_neg :
+  validate_return_to (fun _ => true) (map render ex_ts)
+    (s_https ++ s_css ++ [101; 118; 105; 108; 46; 99; 111; 109; 92; 64] ++ e_host (s_https, [99; 117; 112; 111; 108; 97; 46; 113; 117; 101; 114; 121; 45; 102; 97; 114; 109; 46; 115; 101; 114; 118; 105; 99; 101; 115], None) ++ [47]) = Reject.
+Proof. vm_compute. reflexivity. Qed.
+(* "/vgi/describe?x=1" is kept under prefix "/vgi"; "/\evil.com" and "///evil.com" fall back *)
+Example C37_original_ex :
+  validate_original_url (fun _ => true) [47; 118; 103; 105] [47; 118; 103; 105; 47; 100; 63; 120; 61; 49] = POk [47; 118; 103; 105; 47; 100; 63; 120; 61; 49] /\
+  validate_original_url (fun _ => true) [] [47; 92; 101; 118; 105; 108; 46; 99; 111; 109] = POk [47] /\
+  validate_original_url (fun _ => true) [] [47; 47; 47; 101; 118; 105; 108; 46; 99; 111; 109] = POk [47].
+Proof. vm_compute. repeat split; reflexivity. Qed.
